@@ -586,9 +586,8 @@ def run_launch(case: dict[str, Any]) -> Outcome:
             sch.patch(launcher_mod, "FileLock", SchedFileLock)
             sch.patch(launcher_mod, "_spawn_worker", fake_spawn)
             if case.get("trace", "lines") == "lines":
-                sch.trace_code(launcher_mod.launch, launcher_mod.gc_state_dir, launcher_mod._probe,
-                               launcher_mod._unlink_stale_socket, launcher_mod._require_socket_or_absent,
-                               launcher_mod._write_meta)
+                sch.trace_code(*S.members(launcher_mod, "launch", "gc_state_dir", "_probe", "_unlink_stale_socket",
+                                          "_require_socket_or_absent", "_write_meta"))
 
             for h in case.get("prestart", []):  # workers already running (with their .meta) before the race starts
                 w = _Worker(len(workers) + 1, int(h), paths[int(h)], len(events))
